@@ -776,6 +776,10 @@ impl<'a> UdpNhcRepr {
             ]);
 
             packet.set_checksum(chk_sum);
+        } else {
+            // make sure we get a consistently zeroed, inlined checksum field,
+            // since `header_len` reserves room for it
+            packet.set_checksum(0);
         }
     }
 }
